@@ -88,13 +88,17 @@ func (pc *PiecewiseCubic) FitWithDerivatives(xs, ys, dydxs []float64) {
 		panic(tooFewPoints)
 	}
 	m := n - 1
+	// Validate before modifying the receiver so that a rejected
+	// fit leaves a previously fitted predictor usable.
+	for i := 0; i < m; i++ {
+		if xs[i+1]-xs[i] <= 0 {
+			panic(xsNotStrictlyIncreasing)
+		}
+	}
 	pc.coeffs.Reset()
 	pc.coeffs.ReuseAs(m, 4)
 	for i := 0; i < m; i++ {
 		dx := xs[i+1] - xs[i]
-		if dx <= 0 {
-			panic(xsNotStrictlyIncreasing)
-		}
 		dy := ys[i+1] - ys[i]
 		// a_0
 		pc.coeffs.Set(i, 0, ys[i])
@@ -314,13 +318,17 @@ func (pc *PiecewiseCubic) fitWithSecondDerivatives(xs, ys, d2ydx2s []float64) {
 		panic(tooFewPoints)
 	}
 	m := n - 1
+	// Validate before modifying the receiver so that a rejected
+	// fit leaves a previously fitted predictor usable.
+	for i := 0; i < m; i++ {
+		if xs[i+1]-xs[i] <= 0 {
+			panic(xsNotStrictlyIncreasing)
+		}
+	}
 	pc.coeffs.Reset()
 	pc.coeffs.ReuseAs(m, 4)
 	for i := 0; i < m; i++ {
 		dx := xs[i+1] - xs[i]
-		if dx <= 0 {
-			panic(xsNotStrictlyIncreasing)
-		}
 		dy := ys[i+1] - ys[i]
 		dm := d2ydx2s[i+1] - d2ydx2s[i]
 		pc.coeffs.Set(i, 0, ys[i])                             // a_0
